@@ -132,6 +132,7 @@ impl Out {
 
 /// decode once on `buf`; returns the outcome and the number of octets left in the buffer
 fn decode_once(buf: &mut BytesMut) -> Out {
+    verif_harness::crumb("ldap3::verif::decode", &buf[..]);
     let r = std::panic::catch_unwind(std::panic::AssertUnwindSafe(|| ldap3::verif::decode(buf)));
     match r {
         Err(e) => Out::Panic(panic_msg(e), last_panic_loc()),
